@@ -19,6 +19,12 @@ TEXTS = {
         "level_note": "Trusted: T-NN (which attribute kinds travel in a state dict), T-OPS (which operations reduce over the batch axis / detach), A-API.",
         "technique": "static typestate fixpoint + mode-split taint dataflow + polynomial normal form of the update statement",
     },
+    "C06": {
+        "level_text": "A typing argument, not a search: x : Deg(d) means unit k depends only on inputs j <= d[k]. The checker enumerates the obligations of that type system on both MADE copies independently (mask comparison direction/strictness/orientation, weight*mask on every path, who-may-write mask/degrees, constructor wiring vs. forward by induction over the block list, degree-preserving operations only, residual-degree guard, tile layout, feature-major consumers, one inverse pass per feature) and discharges each syntactically. All obligations discharged gives strict autoregressiveness for every feature count, width, block count and type, mask draw, context setting, multiplier and every weight value at once, which no sampled gradient test can reach.",
+        "design_ref": "DESIGN.md 1.6, 2.C06, A.1",
+        "level_note": "Trusted base: the obligation checker itself (nfstatic/rules/c06.py), the semantics of F.linear / broadcasting comparison / repeat-reshape-transpose in T-OPS, A-NET (activation callables are elementwise), nn.BatchNorm1d and nn.Dropout act per feature. obligations == discharged on the pinned tree.",
+        "technique": "static type system (degree typing) with syntactically discharged obligations; who-may-write and sibling cross-check of the two copies",
+    },
 }
 
 NOT_CLAIMED = {}
